@@ -2,7 +2,10 @@ module verifharness
 
 go 1.25.0
 
-require github.com/els0r/goProbe/v4 v4.0.0
+require (
+	github.com/els0r/goProbe/v4 v4.0.0
+	github.com/json-iterator/go v1.1.12
+)
 
 require (
 	github.com/beorn7/perks v1.0.1 // indirect
@@ -27,7 +30,6 @@ require (
 	github.com/goccy/go-yaml v1.19.2 // indirect
 	github.com/google/uuid v1.6.0 // indirect
 	github.com/grpc-ecosystem/grpc-gateway/v2 v2.29.0 // indirect
-	github.com/json-iterator/go v1.1.12 // indirect
 	github.com/klauspost/cpuid/v2 v2.3.0 // indirect
 	github.com/leodido/go-urn v1.4.0 // indirect
 	github.com/mattn/go-isatty v0.0.22 // indirect
